@@ -38,7 +38,15 @@ func checkCommitDoneQuorum(c *core.Ctx, rule string) {
 		return okk && k == 1
 	}
 	n := 0
-	for _, cd := range ir.Conds(fn) {
+	// commitDone and the same-package helpers it hands its bound to (their parameters resolve to the
+	// caller's arguments while bound)
+	hosts, releaseHosts := hostsWithHelpers(fn)
+	defer releaseHosts()
+	var conds []ir.Cond
+	for _, h := range hosts {
+		conds = append(conds, ir.Conds(h)...)
+	}
+	for _, cd := range conds {
 		b, ok := cd.V.(*ssa.BinOp)
 		if !ok || b.Op != token.GTR {
 			continue
